@@ -25,15 +25,23 @@ import time
 
 PROPERTY = "C05"
 LEVEL_TEXT = ("Lean theorems over Model/Failure.lean + Model/FailureN.lean instantiated with two tables generated from the source (healthcheck of executor.py; "
-              "the ways out of the shm server's request loop in shm/server.py and whether entrypoint runs the exit handler on each): any exited or "
-              "never-started child makes the next healthcheck raise (a healthy executor never does, heartbeat due or not; only an exhausted retry budget makes it give up); "
+              "the ways out of the shm server's request loop in shm/server.py and whether entrypoint runs the exit handler on each). For the healthcheck DESCRIBED BY THE "
+              "TABLE: any exited or never-started child makes the next healthcheck raise, whatever the exit code (a healthy executor never does, heartbeat due or not; only "
+              "an exhausted retry budget makes it give up) -- that the SOURCE predicate is the table's class is decided by a structural reading of the tests (is None / "
+              "comparisons with integer literals / in / not-and-or / inlined lambda, if-elif chains in order; exact on all integers), anything else is a broken tie, and the "
+              "real healthcheck is called with every exit code None, -255..255 for every kind of child on every run; "
               "a task body that ends by exception, sys.exit(n), BaseException or signal is reported by the executor's next iteration; a live executor that sees a "
               "TaskFailure or a dead child reports a failure-class message in the same recv_loop iteration and tears itself down; a failure-class message makes "
               "Bridge.recv_events shut down and raise whatever else is in the batch; for ANY number of executors and any interleaving in which the failing executor "
-              "runs, then the network delivers, then the controller receives, and NOTHING IN FLIGHT IS LOST, the run has returned or raised (never `starved`), with an error "
-              "whenever the controller was still waiting; without the no-loss hypothesis the statement fails (witness: known finding C06-exit-unretried); outputs are only "
-              "ever written from payloads read; every executor that reads ExecutorShutdown tears down; after the run has ended (normally or not, whatever was lost) every "
-              "executor that runs once more is torn down and stays so; for ARBITRARY host names (one may be a suffix, prefix or substring of another): a report removes "
+              "runs, then the network delivers, then the controller receives, and NOTHING IN FLIGHT IS LOST (hypothesis NoLoss of c05_never_hangs_any_shape_partial), the run "
+              "has returned or raised (never `starved`), with an error whenever the controller was still waiting; without the no-loss hypothesis the statement fails "
+              "(c05_bounded_full_fails; known finding C06-exit-unretried, filed under C06 -- the real fault runs of C05 are loss-free and do not replay it); the one-executor "
+              "versions (c05_bounded_lossless_partial, c05_never_hangs_lossless_partial) are partial because that model has no loss step at all; outputs are only "
+              "ever written from payloads read; every executor that reads ExecutorShutdown tears down; after the run has ended (normally or not, whatever was lost OF THE "
+              "EXECUTOR-TO-CONTROLLER traffic; a lost ExecutorShutdown is not modelled, teardown in the environment where SIGKILL works) every "
+              "executor that runs once more is torn down and stays so; for arbitrary host ids as long as no registered id is `data.` + another registered id (the Bridge "
+              "refuses that second registration) -- one id may be a suffix, prefix or substring of another, contain dots or itself start with `data.` (since fix "
+              "Bridge.shutdown no longer skips such an executor): a report removes "
               "exactly the host it names from the sender table (c05_pop_exact), when the run has ended every registered host has been sent ExecutorShutdown unless its own "
               "ExecutorExit/ExecutorFailure was read before the first shutdown (c05_every_host_shut_down, _consumed, _N for N executors with losses), nobody else is messaged, "
               "and an unreported host gets it exactly once (run returned) or twice (run raised: recv_events' own shutdown + the finally). Teardown: terminate is a PROGRAM against an explicit environment (Os): assuming only that "
@@ -44,37 +52,50 @@ LEVEL_TEXT = ("Lean theorems over Model/Failure.lean + Model/FailureN.lean insta
 LEVEL_NOTE = ("modelled, not verified: Executor.healthcheck/terminate/recv_loop, entrypoint.execute_sequence, Bridge.recv_events/shutdown, "
               "impl.run (scheduler abstracted to tasks-remaining / outputs-missing), shm/server.py entrypoint + LocalServer (end of the process only). "
               "Definitional obligations (case tables that restate the model and are carried by the correspondence tie, not by proof): c05_worker_body, c05_no_wrong_value's "
-              "first conjunct (outputs come from payloads; that the payload carries the right value is C01). Process table, /dev/shm, exit codes delivered by the OS, "
+              "first conjunct (outputs come from payloads; that the payload carries the right value is C01), conjuncts 2-3 of c05_segments_partial (they unfold shmDies). "
+              "Carried by the tie only: which exception classes execute_sequence reports (the model has ONE outcome `exc`; the tie raises every class of a structured "
+              "universe -- 37 builtin Exception classes incl. the OSError/TimeoutError family, 7 user classes, an exception whose repr raises, 4 BaseException classes, 12 kinds "
+              "of constructor arguments -- through the real execute_sequence with the real message serialisation on every run, and one class per real `raise` fault run). "
+              "Process table, /dev/shm, exit codes delivered by the OS, "
               "wall-clock bounds (the graces are constants of the code) and message delivery (C06; not available for the last message of a leaving executor) are not proved; "
-              "they are sampled by real-cluster fault runs")
+              "they are sampled by real-cluster fault runs (at most 3 hosts or 3 workers per host, one fixed 4-task diamond job; fused sequences are exercised through the real execute_sequence in-process only, the worker's waiting_ts path not at all). "
+              "Real runs that end without a verdict (set-up failed three times, fault never injected, start-up verdict dropped, background run unfinished) are listed in the "
+              "evidence (c05_unjudged) and bounded: more than UNJUDGED_MAX of a kind is a broken tie; the two scenarios of the fixed hangs must have been exercised in every quick run")
 TECHNIQUE = ("Lean 4 proof (stage invariants over arbitrary fair schedules of N executors; teardown as a program against an environment with explicit hypotheses; table side "
-             "conditions by decide) + two AST translators (healthcheck; shm server exit paths) each cross-checked by driving the real code + differential correspondence on shell "
+             "conditions by decide) + two AST translators (healthcheck, predicates read structurally; shm server exit paths) each cross-checked by driving the real code + differential correspondence on shell "
              "objects (real shm client over a fake socket, real shm server entrypoint over a scripted socket) + real-cluster fault injection with a process-table//dev/shm oracle")
 LEAN_PROPS = ["EkwVerif.Props.C05", "EkwVerif.Props.C05N", "EkwVerif.Props.C05Shm", "EkwVerif.Props.C05Hosts"]
 LEAN_DRIVERS = ["C05", "C08"]
 RULE = ("healthcheck: every combination of handle states {never-started, alive, exit 0, 1, -9} for 1-2 workers x {alive,0,1,-9} for shm and data "
-        "server (480 cases); random executor states/inboxes for recv_loop (heartbeat due / retry budget exhausted as environment inputs) and terminate (stuck workers; shm "
-        "server mute or lingering on the shutdown command, through the real shm client over a fake socket); generator tasks with 1-3 outputs crashing at every "
-        "point with Exception subclasses / SystemExit(n) / KeyboardInterrupt; random listener streams for Bridge.recv_events over 1-3 hosts; impl.run against a "
+        "server (480 cases) + one dead child of each kind with EVERY exit code None, -255..255 (1536 cases, oracle only); random executor states/inboxes for recv_loop "
+        "(exit codes of dead children: 0, 1, 3, -9, -15 or uniform in -64..255; heartbeat due / retry budget exhausted as environment inputs) and terminate (stuck workers; shm "
+        "server mute or lingering on the shutdown command, through the real shm client over a fake socket); generator tasks with 1-3 outputs crashing at a random "
+        "point: every class of the exception universe at least once per run (60% with non-default constructor arguments: none, int, tuple, bytes, non-ascii, lone surrogate, 20 kB, dict+set, "
+        "nested exception, opaque object, errno pair), every BaseException class, sys.exit(int | None | str), RuntimeError / KeyboardInterrupt at every crash point, then random; "
+        "random listener streams for Bridge.recv_events over 1-3 hosts; impl.run against a "
         "simulated cluster (1-3 hosts) with a failure message of every class injected at every reply position; in both, 60% of the multi-host cases take their host names "
-        "from families related by suffix (node1/gpunode1, h1/xh1, 1/11), prefix (h1/h10), both (1/11/111), equal length, substring, case - in random registration order - "
-        "plus 16 directed cases per run in which one executor reports ExecutorFailure/ExecutorExit while the others live; the real shm server entrypoint over a scripted socket: random request "
+        "from families related by suffix (node1/gpunode1, h1/xh1, 1/11), prefix (h1/h10), both (1/11/111), equal length, substring, case, ids starting with `data.` "
+        "(data.n1, data.data.n2, `data.`, `data`) or containing dots - in random registration order - "
+        "plus 22 directed cases per run in which one executor reports ExecutorFailure/ExecutorExit while the others live; the real shm server entrypoint over a scripted socket: random request "
         "histories ended by ShutdownCommand / undecodable datagram (unknown tag, empty, non-ascii key) / recvfrom error / sendto error / SIGTERM / SIGINT handler; "
-        "real clusters (1-2 hosts x 1-2 workers): task raises / sys.exit(n) / SIGKILL before, during, after publishing; SIGKILL of data server; SIGKILL/SIGTERM of shm server "
+        "real clusters (1x1, 1x2, 2x1, 2x2, 1x3, 3x1 hosts x workers): task raises (one class of the universe per run, half from the OSError/TimeoutError family) / sys.exit(n) / SIGKILL before, during, after publishing; SIGKILL of data server; SIGKILL/SIGTERM of shm server "
         "(own/other host), shm server killed between reading a request / the shutdown command and answering it, one undecodable datagram on the shm port; "
-        "2 (quick) / 14 (thorough) fault runs on 2-3 host clusters whose host ids are related by suffix / prefix / equal length, the death (helper killed by name, or the "
+        "2 (quick) / 14 (thorough) fault runs on 2-3 host clusters whose host ids are related by suffix / prefix / equal length or start with `data.` (the second one of every run), the death (helper killed by name, or the "
         "worker of the first of the parallel tasks a/b that runs there) placed on a chosen host, mostly the shorter-named one; every executor of a real run records when it "
-        "read ExecutorShutdown and when it reported its own exit/failure (oracle: told to stop unless it had reported by itself); "
+        "read ExecutorShutdown and when it reported its own exit/failure (oracle: told to stop unless it had reported by itself); the deadline of a real run counts from the "
+        "injection of the fault (30 s; start-up and crash point 60 s each; whole run at most 120 s; all allowances x load average / cores, at most x3, when the machine is oversubscribed); processes are found by session AND by an environment marker (a child that calls setsid is seen), segments by the run token whatever their prefix; "
         "random histories of the real shm Manager (as for C08/C09) each ended by Manager.atexit with readers/writers/disk jobs still registered; "
         "non-trivial = a case with at least one dead child, failure message or injected fault; distinct by content hash")
 ASSUMPTIONS = [
     "shell objects: multiprocessing handles, zmq listener/sender, UDP sockets of the shm client/server and the clock are replaced by in-process fakes",
     "fault runs: a hang / leftover verdict that does not show again on an immediate re-run of the same case is dropped ONLY when the job had not started in the failing run "
     "(every data server has passed the runner's start-up gate and the first task body was entered otherwise): the fork-with-threads deadlock at cluster start-up under "
-    "heavy machine load is outside C05; after the job has started it is reported with both runs in the replay",
-    "lossless delivery of what is in flight is a named hypothesis of the bounded-time theorems (C06 gives it only while the sender lives); the executor process itself "
-    "does not die (outside the property)",
+    "heavy machine load is outside C05; after the job has started it is reported with both runs in the replay; dropped verdicts are counted and more than one (quick) / three (thorough) per run is a broken tie",
+    "nothing in flight from an executor to the controller is lost: hypothesis NoLoss of c05_never_hangs_any_shape_partial (C06 gives it only while the sender lives); the one-executor "
+    "model has no loss step; a lost ExecutorShutdown (controller to executor) is not modelled; the executor process itself does not die (outside the property)",
     "SIGKILL followed by join ends a child process (hypothesis KillWorks of c05_teardown); a worker that is not blocked reads WorkerShutdown",
+    "exit codes of child processes lie in -255..255 (multiprocessing: -signal number .. exit status & 0xff)",
+    "no registered host id equals `data.` + another registered host id (Bridge.__init__ treats the second as a double registration and never completes)",
 ]
 TRUSTED_EXTRA = ["multiprocessing.Process exit-code semantics (SystemExit(n) -> n, other BaseException -> 1, signal s -> -s)",
                  "Linux: /dev/shm/<name> is the POSIX shared-memory object <name>; /proc/net/udp shows a socket's receive queue"]
@@ -88,22 +109,134 @@ class TranslateError(Exception):
     pass
 
 
-def _classify_pred(fn):
-    """fn: exit code -> bool. Returns exited | nonzero | never, or raises."""
-    probe = [None, 0, 1, -9, 3, 255]
-    got = []
-    for c in probe:
-        try:
-            got.append(bool(fn(c)))
-        except Exception as e:
-            raise TranslateError(f"predicate not evaluable on {c!r}: {e!r}")
-    if got == [False, True, True, True, True, True]:
+class _PErr:
+    """value of a sub-expression whose evaluation raises (e.g. `None < 0`)"""
+    def __init__(self, why):
+        self.why = why
+
+
+_CMP = {ast.Eq: lambda a, b: a == b, ast.NotEq: lambda a, b: a != b, ast.Lt: lambda a, b: a < b, ast.LtE: lambda a, b: a <= b,
+        ast.Gt: lambda a, b: a > b, ast.GtE: lambda a, b: a >= b}
+_FLIP = {ast.Lt: ast.Gt, ast.Gt: ast.Lt, ast.LtE: ast.GtE, ast.GtE: ast.LtE, ast.Eq: ast.Eq, ast.NotEq: ast.NotEq}
+PRED_DOMAIN = [None] + list(range(-255, 256))      # every exit code multiprocessing can deliver (-signal .. 255), and `still running`
+
+
+def _int_const(node):
+    """an integer literal (possibly signed), else None"""
+    if isinstance(node, ast.Constant) and type(node.value) is int:
+        return node.value
+    if isinstance(node, ast.UnaryOp) and isinstance(node.op, (ast.USub, ast.UAdd)) and isinstance(node.operand, ast.Constant) and type(node.operand.value) is int:
+        return -node.operand.value if isinstance(node.op, ast.USub) else node.operand.value
+    return None
+
+
+def translate_pred(test, is_code, lambdas):
+    """STRUCTURAL translation of a healthcheck test over ONE exit code. `is_code(node)`: is this sub-expression the exit code of the
+    child under test; `lambdas`: name -> ast.Lambda (single-parameter helpers defined in healthcheck, inlined).
+    Accepted shapes (everything else: TranslateError `translator cannot read the predicate`):
+        X is None | X is not None | X <op> c | c <op> X (op in == != < <= > >=, c an int literal) | X in (c, ..) | X not in (c, ..)
+        | X (truth value) | not P | P and Q | P or Q | True | False | f(X) with f a lambda of the above.
+    Returns (eval, consts): eval(code) -> bool | _PErr, computed by THIS interpreter (the source text is never evaluated), and the
+    integer literals mentioned. The predicate is constant on every interval of integers between two consecutive literals, so its
+    class is decided exactly by its values on None and on {c-1, c, c+1 : c a literal or 0}."""
+    consts = [0]
+
+    def cannot(node, why=""):
+        raise TranslateError("translator cannot read the predicate: " + ast.unparse(node)[:80] + (" (" + why + ")" if why else ""))
+
+    def tr(node, sub):
+        # sub: parameter name -> True when that name stands for the exit code
+        def code(n):
+            return (isinstance(n, ast.Name) and sub.get(n.id)) or is_code(n)
+        if isinstance(node, ast.Constant) and isinstance(node.value, bool):
+            v = node.value
+            return lambda x: v
+        if code(node):
+            return lambda x: bool(x)        # truth value of an exit code: None and 0 are false
+        if isinstance(node, ast.BoolOp):
+            parts = [tr(v, sub) for v in node.values]
+            is_and = isinstance(node.op, ast.And)
+
+            def f(x):
+                r = is_and
+                for p_ in parts:
+                    r = p_(x)
+                    if isinstance(r, _PErr):
+                        return r
+                    if r != is_and:
+                        return r
+                return r
+            return f
+        if isinstance(node, ast.UnaryOp) and isinstance(node.op, ast.Not):
+            g = tr(node.operand, sub)
+            return lambda x: (lambda r: r if isinstance(r, _PErr) else (not r))(g(x))
+        if isinstance(node, ast.Call) and isinstance(node.func, ast.Name) and node.func.id in lambdas and len(node.args) == 1 and not node.keywords:
+            lam = lambdas[node.func.id]
+            a = lam.args
+            if len(a.args) != 1 or a.vararg or a.kwarg or a.kwonlyargs or a.defaults or a.posonlyargs:
+                cannot(node, "helper is not a one-parameter lambda")
+            if not code(node.args[0]):
+                cannot(node, "helper applied to something that is not the exit code")
+            return tr(lam.body, {a.args[0].arg: True})
+        if isinstance(node, ast.Compare) and len(node.ops) == 1:
+            op, l, r = node.ops[0], node.left, node.comparators[0]
+            if isinstance(op, (ast.Is, ast.IsNot)):
+                if code(l) and isinstance(r, ast.Constant) and r.value is None:
+                    pos = isinstance(op, ast.Is)
+                    return lambda x: (x is None) == pos
+                cannot(node)
+            if isinstance(op, (ast.In, ast.NotIn)):
+                if code(l) and isinstance(r, (ast.Tuple, ast.List, ast.Set)) and all(_int_const(e) is not None or (isinstance(e, ast.Constant) and e.value is None) for e in r.elts):
+                    vals = [_int_const(e) for e in r.elts]
+                    consts.extend(v for v in vals if v is not None)
+                    pos = isinstance(op, ast.In)
+                    return lambda x: (any((x is v) if v is None else (x is not None and x == v) for v in vals)) == pos
+                cannot(node)
+            if type(op) in _CMP:
+                if code(l) and _int_const(r) is not None:
+                    c, o = _int_const(r), type(op)
+                elif code(r) and _int_const(l) is not None:
+                    c, o = _int_const(l), _FLIP[type(op)]
+                elif code(l) and isinstance(r, ast.Constant) and r.value is None and isinstance(op, (ast.Eq, ast.NotEq)):
+                    pos = isinstance(op, ast.Eq)
+                    return lambda x: (x is None) == pos
+                else:
+                    cannot(node)
+                consts.append(c)
+                fn = _CMP[o]
+
+                def f(x):
+                    if x is None:
+                        if o in (ast.Eq, ast.NotEq):
+                            return o is ast.NotEq
+                        return _PErr("ordering comparison of None")
+                    return fn(x, c)
+                return f
+        cannot(node)
+    return tr(test, {}), consts
+
+
+def classify_pred(ev, consts, what):
+    """exact class of a translated predicate: exited | nonzero | never, else TranslateError naming an exit code on which the
+    predicate differs from every class of the model."""
+    pts = sorted({min(255, max(-255, c + d)) for c in consts for d in (-1, 0, 1)} | {-255, 255})      # within the domain of exit codes
+    vals = {}
+    for x in [None] + pts:
+        r = ev(x)
+        if isinstance(r, _PErr):
+            raise TranslateError(f"translator cannot read the predicate: {what}: evaluation raises on exit code {x!r} ({r.why})")
+        vals[x] = bool(r)
+    ints = [x for x in pts]
+    if not vals[None] and all(vals[x] for x in ints):
         return "exited"
-    if got == [False, False, True, True, True, True]:
+    if not vals[None] and all(vals[x] == (x != 0) for x in ints):
         return "nonzero"
-    if got == [False] * 6:
+    if not any(vals.values()):
         return "never"
-    raise TranslateError(f"predicate has an unrecognised truth table {got}")
+    if vals[None]:
+        raise TranslateError(f"healthcheck predicate {what} holds for a child that is still running (exit code None): not a class of the model")
+    odd = [x for x in ints if not vals[x] and x != 0]
+    raise TranslateError(f"healthcheck predicate {what} is none of the model's classes (exited / nonzero / never): e.g. it is false for exit code(s) {odd[:4]}")
 
 
 def _has_raise(stmts):
@@ -134,42 +267,86 @@ def health_table(src: str):
     fn = next((n for n in cls.body if isinstance(n, ast.FunctionDef) and n.name == "healthcheck"), None)
     if fn is None:
         raise TranslateError("Executor.healthcheck not found")
-    # helper definitions usable by the tests: lambdas / nested defs in healthcheck, module-level defs
-    helpers = {}
-    for n in mod.body:
-        if isinstance(n, ast.FunctionDef):
-            helpers[n.name] = n
+    # helpers usable by the tests: one-parameter lambdas assigned in healthcheck (inlined structurally by translate_pred)
+    lambdas = {}
     env = {}
-    for n in mod.body:
-        if isinstance(n, ast.FunctionDef):
-            try:
-                exec(compile(ast.Module([n], []), "<health>", "exec"), env)
-            except Exception:
-                pass
     for n in fn.body:
-        if isinstance(n, ast.Assign) and isinstance(n.value, ast.Lambda) or isinstance(n, ast.FunctionDef):
-            exec(compile(ast.Module([n], []), "<health>", "exec"), env)
+        if isinstance(n, ast.Assign) and isinstance(n.value, ast.Lambda) and len(n.targets) == 1 and isinstance(n.targets[0], ast.Name):
+            lambdas[n.targets[0].id] = n.value
+        elif isinstance(n, ast.FunctionDef) and not n.decorator_list:
+            # `def f(x): return <expr>` (optionally after a docstring) is read like the lambda
+            body_ = [b_ for b_ in n.body if not (isinstance(b_, ast.Expr) and isinstance(b_.value, ast.Constant))]
+            if len(body_) == 1 and isinstance(body_[0], ast.Return) and body_[0].value is not None:
+                lambdas[n.name] = ast.Lambda(args=n.args, body=body_[0].value)
 
-    def mentions(test, what):
-        return what in ast.unparse(test)
+    def pred_of(test, code_expr):
+        """code_expr: source text of the expression holding the exit code of the child under test (e.g. `e.exitcode`)"""
+        ev, consts = translate_pred(test, lambda nd: isinstance(nd, ast.Attribute) and ast.unparse(nd) == code_expr, lambdas)
+        return classify_pred(ev, consts, ast.unparse(test)[:80] + ("  with " + "; ".join(f"{k} = {ast.unparse(v)}" for k, v in lambdas.items()) if lambdas else ""))
 
-    def pred_of(test, build_env):
-        code = compile(ast.Expression(test), "<health>", "eval")
+    def flatten(ifn, out):
+        out.append((ifn.test, ifn.body))
+        if len(ifn.orelse) == 1 and isinstance(ifn.orelse[0], ast.If):
+            flatten(ifn.orelse[0], out)
+        elif ifn.orelse:
+            raise TranslateError("else branch in healthcheck not recognised: " + ast.unparse(ifn.test)[:60])
+        return out
 
-        def f(c):
-            e = dict(env)
-            e.update(build_env(c))
-            return eval(code, e)
-        return _classify_pred(f)
+    def check_body(body):
+        for s_ in body:
+            for x in ast.walk(s_):
+                if isinstance(x, (ast.Return, ast.Break, ast.Continue)):
+                    raise TranslateError("return/break/continue inside a healthcheck branch not recognised: " + ast.unparse(s_)[:60])
 
-    class _Self:
-        pass
+    def combined(chains, code_expr, handle_name=None):
+        """chains: [[(test, body)...]...] executed one after the other; within a chain the first true test decides. Returns
+        (pred class of `some branch raises` as a function of the exit code, does a None handle raise)."""
+        consts_all = [0]
+        progs = []
+        none_raises_ = False
+        for ch in chains:
+            prog = []
+            for test, body in ch:
+                check_body(body)
+                if handle_name is not None and code_expr not in ast.unparse(test):
+                    # the `handle is None` branch, structurally
+                    ok = (isinstance(test, ast.Compare) and len(test.ops) == 1 and isinstance(test.ops[0], (ast.Is, ast.Eq)) and isinstance(test.left, ast.Name)
+                          and test.left.id == handle_name and isinstance(test.comparators[0], ast.Constant) and test.comparators[0].value is None) or \
+                         (isinstance(test, ast.UnaryOp) and isinstance(test.op, ast.Not) and isinstance(test.operand, ast.Name) and test.operand.id == handle_name)
+                    if not ok:
+                        raise TranslateError("translator cannot read the predicate: worker branch test " + ast.unparse(test)[:80])
+                    if not prog:
+                        none_raises_ = none_raises_ or _has_raise(body)
+                    prog.append((lambda x: False, _has_raise(body)))
+                    continue
+                ev, cs = translate_pred(test, lambda nd: isinstance(nd, ast.Attribute) and ast.unparse(nd) == code_expr, lambdas)
+                consts_all.extend(cs)
+                prog.append((ev, _has_raise(body)))
+            progs.append(prog)
+
+        def raises(x):
+            for prog in progs:
+                for ev, r in prog:
+                    v = ev(x)
+                    if isinstance(v, _PErr):
+                        return v
+                    if v:
+                        if r:
+                            return True
+                        break
+            return False
+        what = " ; ".join(" elif ".join(ast.unparse(t)[:60] for t, _ in ch) for ch in chains) + \
+            ("  with " + "; ".join(f"{k} = {ast.unparse(v)}" for k, v in lambdas.items()) if lambdas else "")
+        return classify_pred(raises, consts_all, what), none_raises_
 
     rows = {}
     none_raises = None
     seen_worker_loop = False
+    top = {"shm": [], "data": []}
     for n in fn.body:
         if isinstance(n, ast.For) and "self.workers" in ast.unparse(n.iter):
+            if seen_worker_loop:
+                raise TranslateError("two loops over self.workers in healthcheck not recognised")
             seen_worker_loop = True
             # loop variable holding the handle
             tgt = n.target
@@ -180,54 +357,33 @@ def health_table(src: str):
                 kname, hname = None, names[0]
             else:
                 raise TranslateError("worker loop shape not recognised: " + ast.unparse(n.iter))
-            # flatten the if/elif chain(s)
-            branches = []
-
-            def chain(ifn):
-                branches.append((ifn.test, ifn.body))
-                if len(ifn.orelse) == 1 and isinstance(ifn.orelse[0], ast.If):
-                    chain(ifn.orelse[0])
-                elif ifn.orelse:
-                    raise TranslateError("else branch in the worker loop not recognised")
+            if n.orelse:
+                raise TranslateError("else branch of the worker loop not recognised")
+            chains = []
             for s in n.body:
                 if isinstance(s, ast.If):
-                    chain(s)
-                elif isinstance(s, (ast.Expr, ast.Pass)):
+                    chains.append(flatten(s, []))
+                elif isinstance(s, ast.Pass) or (isinstance(s, ast.Expr) and isinstance(s.value, ast.Constant)):
                     continue
                 else:
                     raise TranslateError("statement in the worker loop not recognised: " + ast.unparse(s)[:60])
-            for test, body in branches:
-                if ".exitcode" in ast.unparse(test):
-                    p = pred_of(test, lambda c: {hname: _Fake(c), **({kname: "w"} if kname else {})})
-                    rows["worker"] = [p, _has_raise(body)]
-                else:
-                    # the `is None` branch: true for None handle, false for a handle
-                    code = compile(ast.Expression(test), "<health>", "eval")
-                    e1 = dict(env)
-                    e1.update({hname: None, **({kname: "w"} if kname else {})})
-                    e2 = dict(env)
-                    e2.update({hname: _Fake(None), **({kname: "w"} if kname else {})})
-                    try:
-                        t1, t2 = bool(eval(code, e1)), bool(eval(code, e2))
-                    except Exception as ex:
-                        raise TranslateError(f"worker branch test not evaluable: {ast.unparse(test)}: {ex!r}")
-                    if t1 and not t2:
-                        none_raises = _has_raise(body)
-                    else:
-                        raise TranslateError("worker branch test not recognised: " + ast.unparse(test))
+            p, none_raises = combined(chains, hname + ".exitcode", hname)
+            rows["worker"] = [p, p != "never"]
         elif isinstance(n, ast.If):
-            txt = ast.unparse(n.test)
-            for attr, child in (("self.shm_process", "shm"), ("self.data_server", "data")):
-                if attr in txt and "exitcode" in txt:
-                    def benv(c, attr=attr):
-                        s = _Self()
-                        s.shm_process = _Fake(None)
-                        s.data_server = _Fake(None)
-                        setattr(s, attr.split(".")[1], _Fake(c))
-                        return {"self": s}
-                    rows[child] = [pred_of(n.test, benv), _has_raise(n.body)]
-                    if n.orelse:
-                        raise TranslateError("else branch on the %s check not recognised" % child)
+            txt = " ".join(ast.unparse(t) for t, _ in flatten(n, []))
+            hit = [child for attr, child in (("self.shm_process", "shm"), ("self.data_server", "data")) if attr + ".exitcode" in txt]
+            if len(hit) > 1:
+                raise TranslateError("one if-chain of healthcheck tests two children: not recognised: " + txt[:80])
+            if hit:
+                top[hit[0]].append(flatten(n, []))
+            elif ".exitcode" in txt or "self.workers" in txt:
+                raise TranslateError("exit-code test of healthcheck not recognised: " + txt[:80])
+        elif isinstance(n, (ast.Return, ast.Raise, ast.Try, ast.While, ast.With)):
+            raise TranslateError("statement of healthcheck not recognised: " + ast.unparse(n)[:60])
+    for attr, child in (("self.shm_process", "shm"), ("self.data_server", "data")):
+        if top[child]:
+            p, _ = combined(top[child], attr + ".exitcode")
+            rows[child] = [p, p != "never"]
     if not seen_worker_loop:
         rows.setdefault("worker", ["never", False])
     out = []
@@ -882,10 +1038,10 @@ def gen_state(rng, healthy_bias=0.35):
             return "ns"
         if r < 0.6:
             return {"exit": None, "stuck": rng.random() < 0.25}
-        return {"exit": rng.choice([0, 1, -9, 3, -15]), "stuck": False}
+        return {"exit": rng.choice([0, 1, -9, 3, -15, rng.randint(-64, 255)]), "stuck": False}
     return {"host": "h0", "workers": [[f"h0.w{i}", handle()] for i in range(nw)],
-            "shm": None if healthy or rng.random() < 0.7 else rng.choice([0, 1, -9]),
-            "data": None if healthy or rng.random() < 0.7 else rng.choice([0, 1, -9]),
+            "shm": None if healthy or rng.random() < 0.7 else rng.choice([0, 1, -9, rng.randint(-64, 255)]),
+            "data": None if healthy or rng.random() < 0.7 else rng.choice([0, 1, -9, rng.randint(-64, 255)]),
             "terminating": (not healthy) and rng.random() < 0.08,
             "shm_mode": "ok" if healthy else rng.choice(["ok", "ok", "ok", "ok", "mute", "lingers"])}
 
@@ -920,31 +1076,26 @@ def gen_inbox(rng, st):
 
 # ---- (ii.d) worker body: execute_sequence
 
-EXC_KINDS = ["RuntimeError", "ValueError", "KeyError", "ZeroDivisionError", "Custom", "OSError", "AssertionError"]
+from ekw.c05_cluster import BASE_KINDS, EXC_ARGS, EXC_BUILTIN, EXC_HOSTILE, EXC_KINDS, EXC_USER, make_exception  # noqa: E402  (the universe of what a task body can raise)
 
 
 def real_worker(case):
-    """case: n_out, crash_at (0..n_out), outcome ["returns"|"exc",kind|"exit",n|"base"], publish: list of output indices"""
+    """case: n_out, crash_at (0..n_out), outcome ["returns"|"exc",kind[,argkind]|"exit",n|"base"[,kind[,argkind]]], publish: list of output indices"""
     import cascade.executor.runner.entrypoint as ep
     import cascade.executor.runner.memory as mem
     from cascade.executor.msg import DatasetPublished, TaskFailure, TaskSequence
+    from cascade.executor.serde import des_message, ser_message
     from cascade.low.core import DatasetId, JobInstance, TaskDefinition, TaskInstance
     n, at, outcome = case["n_out"], case["crash_at"], case["outcome"]
 
     def crash():
         k = outcome[0]
         if k == "exc":
-            kind = outcome[1]
-            if kind == "Custom":
-                class MyErr(Exception):
-                    pass
-                raise MyErr("boom")
-            raise {"RuntimeError": RuntimeError, "ValueError": ValueError, "KeyError": KeyError, "ZeroDivisionError": ZeroDivisionError,
-                   "OSError": OSError, "AssertionError": AssertionError}[kind]("boom")
+            raise make_exception(outcome[1], outcome[2] if len(outcome) > 2 else "boom")
         if k == "exit":
             sys.exit(outcome[1])
         if k == "base":
-            raise KeyboardInterrupt()
+            raise make_exception(outcome[1] if len(outcome) > 1 else "KeyboardInterrupt", outcome[2] if len(outcome) > 2 else "none")
 
     if n == 1:
         def body():
@@ -960,7 +1111,23 @@ def real_worker(case):
             if at == n:
                 crash()
     td = TaskDefinition(func=TaskDefinition.func_enc(body), environment=[], input_schema={}, output_schema={str(i): "int" for i in range(n)})
-    job = JobInstance(tasks={"t": TaskInstance(definition=td, static_input_kw={}, static_input_ps={})}, edges=[])
+    # FUSED sequence: case["pre"] = output counts of tasks p0, p1, .. that run (and return normally) in the same TaskSequence BEFORE `t`
+    pre = list(case.get("pre", []))
+    tasks = {}
+    for i_, k_ in enumerate(pre):
+        def mk(k_=k_, i_=i_):
+            if k_ == 1:
+                return lambda: 100 + i_
+            def g():
+                for j_ in range(k_):
+                    yield 100 * (i_ + 1) + j_
+            return g
+        tasks[f"p{i_}"] = TaskInstance(definition=TaskDefinition(func=TaskDefinition.func_enc(mk()), environment=[], input_schema={},
+                                                                 output_schema={str(j_): "int" for j_ in range(k_)}), static_input_kw={}, static_input_ps={})
+    tasks["t"] = TaskInstance(definition=td, static_input_kw={}, static_input_ps={})
+    last_out = {f"p{i_}": k_ - 1 for i_, k_ in enumerate(pre)}
+    last_out["t"] = n - 1
+    job = JobInstance(tasks=tasks, edges=[])
     w = _wid("h0.w0")
     sent = []
 
@@ -979,12 +1146,14 @@ def real_worker(case):
         def allocate(key, l, deser_fun):
             return Buf(l)
     old = (ep.callback, mem.callback, mem.shm_client)
-    ep.callback = lambda addr, m: sent.append(m)
-    mem.callback = lambda addr, m: sent.append(m)
+    # what the worker hands to `callback` goes through the REAL message serialisation (as on the ipc socket)
+    ep.callback = lambda addr, m: sent.append(des_message(ser_message(m)))
+    mem.callback = lambda addr, m: sent.append(des_message(ser_message(m)))
     mem.shm_client = Shm
     try:
-        rc = ep.RunnerContext(workerId=w, job=job, callback="cb", param_source={"t": {}})
-        ts = TaskSequence(worker=w, tasks=["t"], publish={DatasetId("t", str(i)) for i in case["publish"]})
+        rc = ep.RunnerContext(workerId=w, job=job, callback="cb", param_source={k_: {} for k_ in tasks})
+        ts = TaskSequence(worker=w, tasks=list(tasks), publish={DatasetId("t", str(i)) for i in case["publish"]} |
+                          {DatasetId(f"p{i_}", str(j_)) for i_, k_ in enumerate(pre) for j_ in range(k_)})
         memory = mem.Memory("cb", w)
         prop = None
         try:
@@ -997,7 +1166,7 @@ def real_worker(case):
         msgs = []
         for m in sent:
             if isinstance(m, DatasetPublished):
-                msgs.append(["pub", _ds_str(m.ds), _ds_str(m.ds) == f"t|{n - 1}"])
+                msgs.append(["pub", _ds_str(m.ds), m.ds.output == str(last_out.get(m.ds.task))])
             elif isinstance(m, TaskFailure):
                 msgs.append(["tf", repr(m.worker)])
             else:
@@ -1007,37 +1176,82 @@ def real_worker(case):
         ep.callback, mem.callback, mem.shm_client = old
 
 
+def _exit_code_of(c):
+    """multiprocessing: SystemExit(None) -> 0, SystemExit(int n) -> n, SystemExit(anything else) -> 1"""
+    return 0 if c is None else (c if isinstance(c, int) else 1)
+
+
 def worker_model_line(case):
     n, at = case["n_out"], case["crash_at"]
     o = case["outcome"]
     crashes = o[0] != "returns"
     upto = n if not crashes else (0 if n == 1 else at)
-    pubs = [["pub", f"t|{i}", i == n - 1] for i in range(upto) if i in case["publish"]]
-    oc = {"returns": ["returns"], "exc": ["exc"], "exit": ["exit", o[1] if len(o) > 1 else 0], "base": ["base"]}[o[0]]
+    pubs = [["pub", f"p{i_}|{j_}", j_ == k_ - 1] for i_, k_ in enumerate(case.get("pre", [])) for j_ in range(k_)] + \
+        [["pub", f"t|{i}", i == n - 1] for i in range(upto) if i in case["publish"]]
+    if o[0] == "exc" and o[1] in EXC_HOSTILE:
+        oc = ["base"]         # the `except Exception` handler itself raises while formatting repr(e): nothing is reported, the process ends (exit code 1)
+    else:
+        oc = {"returns": ["returns"], "exc": ["exc"], "exit": ["exit", _exit_code_of(o[1]) if len(o) > 1 else 0], "base": ["base"]}[o[0]]
     return {"op": "worker", "w": "h0.w0", "pubs": pubs, "outcome": oc}
 
 
 def oracle_worker(case, out):
-    o = case["outcome"][0]
+    """Property text: a task that raises must not go unnoticed. An Exception of ANY class with ANY arguments is reported by exactly one
+    TaskFailure and the worker lives on; where the worker cannot report (BaseException that is not an Exception; an exception whose
+    repr raises) the worker PROCESS must end (the executor's healthcheck then sees the exit code) -- a worker that neither reports
+    nor ends leaves the run waiting for ever."""
+    o = case["outcome"]
     tf = [m for m in out["msgs"] if m[0] == "tf"]
-    if o == "exc" and (len(tf) != 1 or out["exit"] is not None):
-        return ({"kind": "task-failure-not-reported"}, f"task raised {case['outcome']} but worker sent {out['msgs']} / exit {out['exit']}")
+    if o[0] == "exc" and o[1] not in EXC_HOSTILE and (len(tf) != 1 or out["exit"] is not None):
+        return ({"kind": "task-failure-not-reported", "raised": "exception"},
+                f"task raised {o[1]} (arguments: {o[2] if len(o) > 2 else 'boom'}) but the worker sent {out['msgs']} / process exit {out['exit']}")
+    if (o[0] == "base" or (o[0] == "exc" and o[1] in EXC_HOSTILE)) and len(tf) != 1 and out["exit"] is None:
+        return ({"kind": "task-failure-not-reported", "raised": "base-exception" if o[0] == "base" else "hostile-exception"},
+                f"task raised {o[1:] or ['KeyboardInterrupt']}: the worker neither reported a TaskFailure nor ended (sent {out['msgs']}, process goes on)")
+    if o[0] == "exit" and out["exit"] is None:
+        return ({"kind": "task-failure-not-reported", "raised": "system-exit"}, f"task called sys.exit({o[1]!r}) and the worker process goes on without a report: {out['msgs']}")
     return None
 
 
 def gen_worker_cases(rng, n):
+    """every class of the universe at least once per run (random crash point, 60% with a non-default argument kind), every
+    BaseException class, sys.exit with int / None / str codes, a normal return per arity; then random cases up to n"""
+    def point():
+        n_out = rng.choice([1, 2, 2, 3])
+        return n_out, (0 if n_out == 1 else rng.randint(0, n_out))
     cases = []
+    for k in EXC_KINDS + EXC_HOSTILE:
+        n_out, at = point()
+        cases.append({"n_out": n_out, "crash_at": at, "outcome": ["exc", k, "boom" if rng.random() < 0.4 else rng.choice(EXC_ARGS)], "publish": list(range(n_out))})
+    for k in BASE_KINDS:
+        n_out, at = point()
+        cases.append({"n_out": n_out, "crash_at": at, "outcome": ["base", k, rng.choice(["none", "boom", "int"])], "publish": list(range(n_out))})
+    for c in (0, 1, 3, 255, None, "bye"):
+        n_out, at = point()
+        cases.append({"n_out": n_out, "crash_at": at, "outcome": ["exit", c], "publish": list(range(n_out))})
     for n_out in (1, 2, 3):
+        cases.append({"n_out": n_out, "crash_at": 0, "outcome": ["returns"], "publish": list(range(n_out))})
+        # the first round's fixed grid, reduced: RuntimeError / KeyboardInterrupt at every crash point
         for at in range(0, (1 if n_out == 1 else n_out + 1)):
-            for oc in [["returns"]] + [["exc", k] for k in EXC_KINDS] + [["exit", c] for c in (0, 1, 3, 255)] + [["base"]]:
-                cases.append({"n_out": n_out, "crash_at": at, "outcome": oc, "publish": list(range(n_out))})
-    rng.shuffle(cases)
-    extra = []
-    for c in cases[: max(0, n - len(cases))]:
-        d = dict(c)
-        d["publish"] = [i for i in range(c["n_out"]) if rng.random() < 0.5]
-        extra.append(d)
-    return (cases + extra)[:max(n, 40)]
+            cases.append({"n_out": n_out, "crash_at": at, "outcome": ["exc", "RuntimeError"], "publish": list(range(n_out))})
+            cases.append({"n_out": n_out, "crash_at": at, "outcome": ["base"], "publish": list(range(n_out))})
+    for c in cases:
+        if rng.random() < 0.3:
+            c["pre"] = [rng.randint(1, 2) for _ in range(rng.randint(1, 2))]      # fused sequence: 1-2 tasks run before the crashing one
+    while len(cases) < n:
+        n_out, at = point()
+        r = rng.random()
+        if r < 0.6:
+            oc = ["exc", rng.choice(EXC_KINDS + EXC_HOSTILE), rng.choice(EXC_ARGS)]
+        elif r < 0.72:
+            oc = ["base", rng.choice(BASE_KINDS), rng.choice(["none", "boom", "tuple"])]
+        elif r < 0.87:
+            oc = ["exit", rng.choice([0, 1, 2, 3, 127, 255, None, "bye", rng.randint(0, 255)])]
+        else:
+            oc = ["returns"]
+        cases.append({"n_out": n_out, "crash_at": at, "outcome": oc, "publish": [i for i in range(n_out) if rng.random() < 0.6],
+                      **({"pre": [rng.randint(1, 2) for _ in range(rng.randint(1, 2))]} if rng.random() < 0.35 else {})})
+    return cases
 
 
 # ---- host-name families: executor host ids are free-form strings (`HostId = str`); the Bridge keys its sender table by
@@ -1048,12 +1262,16 @@ HOST_FAMILIES = [
     ("suffix", ["a1", "ba1", "cba1"]), ("suffix-prefix", ["1", "11", "111"]), ("prefix", ["h1", "h10", "h101"]),
     ("prefix", ["n", "n0", "n00"]), ("equal-length", ["ab", "ba", "aa"]), ("substring", ["b", "abc", "xabcy"]),
     ("case", ["h1", "H1", "hh1"]), ("substring-of-data-key", ["a", "h1", "t"]),
+    # host ids that themselves start with "data." (the Bridge keys the data server of host h as "data." + h) or contain dots;
+    # never a pair h / "data." + h (the Bridge refuses the second registration: such a cluster never starts)
+    ("data-prefix", ["data.n1", "n1x", "data.data.n2"]), ("data-prefix", ["data.", "data", "data.h"]), ("dotted", ["a.b", "a", "b.a"]),
 ]
 
 
 # (registered hosts in registration order, the host that dies): suffix both orders, suffix+prefix, prefix, equal length, substring
 DIRECTED_NAMES = [(["node1", "gpunode1"], "node1"), (["xh1", "h1"], "h1"), (["1", "11", "111"], "1"), (["1", "11", "111"], "11"),
-                  (["h1", "h10"], "h1"), (["ab", "ba"], "ab"), (["abc", "b"], "b"), (["h0", "h1"], "h0")]
+                  (["h1", "h10"], "h1"), (["ab", "ba"], "ab"), (["abc", "b"], "b"), (["h0", "h1"], "h0"),
+                  (["data.x", "h1"], "h1"), (["h1", "data.x"], "data.x"), (["data.x"], "data.x")]
 
 
 def directed_recvs():
@@ -1072,7 +1290,6 @@ def gen_host_names(rng, n, related=0.6):
     if rng.random() >= related:
         return "plain", [f"h{i}" for i in range(n)]
     fam, names = rng.choice(HOST_FAMILIES)
-    names = [x.replace(".", "_") for x in names]       # WorkerId.from_repr splits at the first dot
     if n <= len(names):
         k = rng.randint(0, len(names) - n)
         pick = names[k:k + n] if rng.random() < 0.7 else rng.sample(names, n)
@@ -1156,7 +1373,7 @@ def real_recv(hosts, batches):
     b = make_bridge(hosts, lst, log)
     holder["b"] = b
     _LAST_RECV["listener"] = lst
-    for h in ["h0", "h1", "h2"] + list(hosts):
+    for h in list(hosts) + [x for x in ("h0", "h1", "h2") if x not in hosts]:      # registration order first (as Bridge.__init__ fills it)
         b.heartbeat_checker[h] = FakeWatcher()
     orig = b.shutdown
 
@@ -1170,14 +1387,14 @@ def real_recv(hosts, batches):
     consumed_failure = lambda: any(_cmsg_of_real(m)[0] in ("tf", "ef", "xf", "exit", "unsup") for bt in lst.consumed for m in bt)
     try:
         ev = b.recv_events()
-        return {"res": "events", "events": [_cmsg_of_real(m) for m in ev], "hosts": [h for h in b.sender.hosts if not h.startswith("data.")]}, consumed_failure()
+        return {"res": "events", "events": [_cmsg_of_real(m) for m in ev], "hosts": [h for h in b.sender.hosts if h in hosts]}, consumed_failure()
     except _Stop:
-        return {"res": "starved", "hosts": [h for h in b.sender.hosts if not h.startswith("data.")]}, consumed_failure()
+        return {"res": "starved", "hosts": [h for h in b.sender.hosts if h in hosts]}, consumed_failure()
     except _Hang as hg:
         return {"res": "hang", "why": str(hg)}, consumed_failure()
     except ValueError:
         sent = [h for h, m in log if isinstance(m, M.ExecutorShutdown)]
-        return {"res": "raised", "sent": sent, "left": [h for h in b.sender.hosts if not h.startswith("data.")]}, True
+        return {"res": "raised", "sent": sent, "left": [h for h in b.sender.hosts if h in hosts]}, True
     except Exception as ex:
         return {"res": "crash:" + _err(ex)}, consumed_failure()
 
@@ -1315,7 +1532,7 @@ def real_run_sim(case):
         res["error"] = _err(ex)
     res["calls"] = calls["n"]
     res["sent"] = [h for h, m in log if isinstance(m, M.ExecutorShutdown)]
-    res["left"] = [h for h in b.sender.hosts if not h.startswith("data.")]
+    res["left"] = [h for h in b.sender.hosts if h in hosts]      # the executors' keys (a host id may itself start with "data.")
     batches = [[_cmsg_of_real(m, job) for m in bt] for bt in lst.batches]
     return res, batches, hosts
 
@@ -1700,7 +1917,7 @@ def _dynamic_entry():
 
 def cluster_matrix():
     out = []
-    for hosts, workers in [(1, 1), (1, 2), (2, 1), (2, 2)]:
+    for hosts, workers in [(1, 1), (1, 2), (2, 1), (2, 2), (1, 3), (3, 1)]:
         for fault in ("raise", "exit", "kill9"):
             for task, when in [("src", "before"), ("src", "during"), ("src", "after"), ("a", "before"), ("sink", "before")]:
                 out.append(dict(fault=fault, when=when, task=task, hosts=hosts, workers=workers, code=3))
@@ -1708,7 +1925,7 @@ def cluster_matrix():
         out.append(dict(fault="exit", when="before", task="a", hosts=hosts, workers=workers, code=0))
         for fault in ("kill-data", "kill-shm", "term-shm"):
             for task, when in [("src", "before"), ("src", "during"), ("src", "after"), ("sink", "before")]:
-                for victim in (["own", "other"] if hosts == 2 else ["own"]):
+                for victim in (["own", "other"] if hosts >= 2 else ["own"]):
                     out.append(dict(fault=fault, when=when, task=task, hosts=hosts, workers=workers, victim=victim))
         out.append(dict(fault="kill-shm-midreq", when="before", task="src", hosts=hosts, workers=workers, victim="own"))
         if workers == 1:
@@ -1717,7 +1934,7 @@ def cluster_matrix():
             out.append(dict(fault="kill-shm-midshutdown", when="before", task="src", hosts=hosts, workers=1, victim="own"))
         # the shm server's request loop raises on ONE undecodable datagram: it ends through entrypoint's exception path
         for i, (task, when) in enumerate([("src", "before"), ("src", "during"), ("src", "after"), ("sink", "before")]):
-            for victim in (["own", "other"] if hosts == 2 else ["own"]):
+            for victim in (["own", "other"] if hosts >= 2 else ["own"]):
                 out.append(dict(fault="garbage-shm", when=when, task=task, hosts=hosts, workers=workers, victim=victim,
                                 datagram=CLUSTER_DATAGRAMS[(i + hosts + workers) % len(CLUSTER_DATAGRAMS)]))
     return out
@@ -1813,7 +2030,7 @@ def judge_cluster(case, obs):
 
 
 def _obs_summary(obs):
-    return {k: obs.get(k) for k in ("ended", "error", "outputs", "leftover_procs", "leftover_shm", "job_started", "fault_fired", "victim_host", "t_run", "wall", "alive_at_deadline",
+    return {k: obs.get(k) for k in ("ended", "error", "outputs", "leftover_procs", "leftover_shm", "job_started", "fault_fired", "victim_host", "t_run", "wall", "load_scale", "alive_at_deadline",
                                     "hosts", "exec_events")}
 
 
@@ -1839,11 +2056,21 @@ def run_cluster_case(ctx, case, deadline=30.0, confirm=True, first_obs=None):
             ctx.count("cluster:infra-retry")
     ctx.count("cluster:runs")
     ctx.count("cluster:fault=" + case["fault"])
+    if case.get("exc"):
+        ctx.count("cluster:raises=" + case["exc"] + "/" + case.get("exc_args", "boom"))
     ctx.count("cluster:when=" + case["when"])
     ctx.count(f"cluster:shape={case['hosts']}x{case['workers']}")
     ctx.count("cluster:ended=" + obs["ended"])
-    if case["fault"] != "none":
+    mask = ctx.extra.setdefault("c05_unjudged", {"infra-no-verdict": [], "fault-not-reached": [], "startup-verdict-dropped": [], "background-not-finished": []})
+    if case["fault"] != "none" and obs["ended"] != "infra":
         ctx.count("cluster:fault-injected" if obs.get("fault_fired") else "cluster:fault-not-reached")
+        if not obs.get("fault_fired"):
+            # the run is judged as a healthy one below (it must end, with the right values); as a FAULT run it says nothing
+            mask["fault-not-reached"].append({"case": case, "ended": obs["ended"], "error": obs.get("error")})
+            if obs["ended"] == "ok" and case.get("on_host") is None and "+" not in case["task"]:
+                # every task of the job has run (the sink's output was delivered), so the crash point WAS passed: the injection itself is broken
+                ctx.disagree("fault-injection", {"cluster": case}, "a run that completed every task has passed the crash point and injected the fault",
+                             {"ended": obs["ended"], "fault_fired": False, "job_started": obs.get("job_started")})
     if obs["ended"] == "error" and case["fault"] != "none" and not lost_output_certain(case):
         ctx.count("cluster:error-where-outputs-might-have-survived")      # allowed by the property text; counted for the record
     viol = judge_cluster(case, obs)
@@ -1852,10 +2079,12 @@ def run_cluster_case(ctx, case, deadline=30.0, confirm=True, first_obs=None):
         ctx.count("cluster:names=" + ",".join(case["names"]))
         if obs.get("fault_fired"):
             ctx.count("cluster:related-host-names+death-on=" + ("shorter-named" if (obs.get("victim_host") or "") == min(obs.get("hosts") or [""], key=len) else "other"))
-    ctx.extra.setdefault("cluster_runs", []).append({"case": {k: case[k] for k in ("fault", "when", "task", "hosts", "workers", "victim", "datagram", "names", "on_host") if k in case}, "ended": obs["ended"],
-                                                      "t_run": obs.get("t_run"), "wall": obs.get("wall"), "verdicts": [s["kind"] for s, _ in viol]})
+    ctx.extra.setdefault("cluster_runs", []).append({"case": {k: case[k] for k in ("fault", "when", "task", "hosts", "workers", "victim", "datagram", "names", "on_host", "exc", "exc_args") if k in case}, "ended": obs["ended"],
+                                                      "t_run": obs.get("t_run"), "wall": obs.get("wall"), "fault_fired": bool(obs.get("fault_fired")), "verdicts": [s["kind"] for s, _ in viol]})
     if obs["ended"] == "infra":
         ctx.notes.append(f"cluster run could not be set up ({obs.get('error')}): {case}")
+        ctx.count("cluster:infra-no-verdict")
+        mask["infra-no-verdict"].append({"case": case, "error": obs.get("error")})
         return obs, []
     out = [(s, w, None) for s, w in viol]
     if viol and confirm:
@@ -1878,11 +2107,30 @@ def run_cluster_case(ctx, case, deadline=30.0, confirm=True, first_obs=None):
                                                                f"{runs[1]['ended']}, leftover procs {len(runs[1]['leftover_procs'] or [])}, leftover shm {len(runs[1]['leftover_shm'] or [])}]", runs))
                 else:
                     ctx.count("cluster:flaky-startup-" + s["kind"])
+                    mask["startup-verdict-dropped"].append({"case": case, "signature": s, "runs": runs})
                     ctx.notes.append(f"start-up verdict (job had not started) not reproduced on re-run, ignored: {s}")
     return obs, out
 
 
+REAL_RAISE_FOCUS = ["TimeoutError", "OSError", "CustomTimeout", "CustomOS", "ConnectionResetError", "FileNotFoundError", "StopIteration", "MemoryError", "Custom"]
+
+
+def with_exception_class(rng, case):
+    """fault `raise` on a real cluster: ONE class of the universe per run (half of the runs from the OSError/TimeoutError family and
+    other classes a misplaced handler is likely to single out, else any Exception class, a hostile one or a BaseException) with one
+    kind of constructor arguments"""
+    if case.get("fault") != "raise" or "exc" in case:
+        return case
+    r = rng.random()
+    kind = rng.choice(REAL_RAISE_FOCUS) if r < 0.5 else rng.choice(EXC_KINDS) if r < 0.85 else rng.choice(EXC_HOSTILE + BASE_KINDS)
+    return dict(case, exc=kind, exc_args="boom" if rng.random() < 0.4 else rng.choice(EXC_ARGS))
+
+
 def pick_cluster_cases(ctx):
+    return [with_exception_class(ctx.rng, c) for c in _pick_cluster_cases(ctx)]
+
+
+def _pick_cluster_cases(ctx):
     rng = ctx.rng
     m = cluster_matrix()
     if ctx.quick:
@@ -1932,26 +2180,36 @@ def cluster_phase(ctx, cases, healthy=True, stop_after=0, first=None):
 
 # ============================================================================= the check
 
-def _dynamic_table():
-    """What the real healthcheck does with exactly one dead child (translator cross-check)."""
-    res = {}
-    base = {"host": "h0", "workers": [["h0.w0", {"exit": None, "stuck": False}]], "shm": None, "data": None, "terminating": False}
+def _health_state(child, c):
+    st = {"host": "h0", "workers": [["h0.w0", {"exit": None, "stuck": False}]], "shm": None, "data": None, "terminating": False}
+    if child == "worker":
+        st["workers"][0][1]["exit"] = c
+    else:
+        st[child] = c
+    return st
 
-    def with_code(child, c):
-        st = json.loads(json.dumps(base))
-        if child == "worker":
-            st["workers"][0][1]["exit"] = c
-        else:
-            st[child] = c
-        return st
+
+def _dynamic_table():
+    """What the real healthcheck does with exactly one dead child, for EVERY exit code of PRED_DOMAIN (None, -255..255): the
+    translator cross-check, and the input of the oracle sweep. Returns (classes, raw) with raw[child][code] = raises."""
+    res, raw = {}, {}
     for child in ("worker", "shm", "data"):
-        got = [real_health(with_code(child, c))["raises"] is True for c in (None, 0, 1, -9, 3, 255)]
-        res[child] = "exited" if got == [False, True, True, True, True, True] else "nonzero" if got == [False, False, True, True, True, True] else \
-            "never" if got == [False] * 6 else "other:" + str(got)
-    st = json.loads(json.dumps(base))
+        got = {c: real_health(_health_state(child, c))["raises"] for c in PRED_DOMAIN}
+        raw[child] = got
+        ints = [c for c in PRED_DOMAIN if c is not None]
+        if got[None] is False and all(got[c] is True for c in ints):
+            res[child] = "exited"
+        elif got[None] is False and all((got[c] is True) == (c != 0) for c in ints):
+            res[child] = "nonzero"
+        elif all(got[c] is False for c in PRED_DOMAIN):
+            res[child] = "never"
+        else:
+            odd = [c for c in ints if got[c] is not True]
+            res[child] = f"other: raises on None: {got[None]}; no raise on exit codes {odd[:6]}"
+    st = _health_state("worker", None)
     st["workers"][0][1] = "ns"
     res["none"] = real_health(st)["raises"] is True
-    return res
+    return res, raw
 
 
 def _load_corpus():
@@ -1979,8 +2237,17 @@ def _inprocess(ctx, use_model=True):
 
     # (i) translator cross-check
     tab = ctx.extra.get("health_table")
-    dyn = _dynamic_table()
+    dyn, raw = _dynamic_table()
     ctx.extra["health_dynamic"] = dyn
+    # the oracle on EVERY exit code (one dead child at a time): a code the healthcheck does not report is a failing input
+    for child in ("worker", "shm", "data"):
+        for c in PRED_DOMAIN:
+            ctx.count("health-sweep:cases")
+            st = _health_state(child, c)
+            o = oracle_health(st, {"raises": raw[child][c]})
+            if o:
+                ctx.count("health-sweep:undetected")
+                ctx.violation(o[0], {"health": st}, o[1])
     if tab is not None:
         eff = {c: (p if r else "never") for c, p, r in tab["rows"]}
         for c in ("worker", "shm", "data"):
@@ -2089,7 +2356,7 @@ def _inprocess(ctx, use_model=True):
             lambda m: {"out": m["out"], "terminating": m["st"]["terminating"], "hang": False, "crash": None})
 
     # (ii.d) worker body
-    for case in gen_worker_cases(rng, ctx.budget(120, 600)):
+    for case in [c["worker"] for c in corpus if "worker" in c] + gen_worker_cases(rng, ctx.budget(160, 1500)):
         try:
             out = real_worker(case)
         except Exception as ex:
@@ -2097,6 +2364,10 @@ def _inprocess(ctx, use_model=True):
         ctx.case({"worker": case}, nontrivial=case["outcome"][0] != "returns")
         ctx.count("worker:cases")
         ctx.count("worker:outcome=" + case["outcome"][0])
+        ctx.count("worker:sequence-length=%d" % (1 + len(case.get("pre", []))))
+        if case["outcome"][0] in ("exc", "base") and len(case["outcome"]) > 1:
+            ctx.count("worker:raises=" + case["outcome"][1])
+            ctx.count("worker:args=" + (case["outcome"][2] if len(case["outcome"]) > 2 else "boom"))
         o = oracle_worker(case, out)
         if o:
             ctx.violation(o[0], {"worker": case}, o[1])
@@ -2180,27 +2451,76 @@ def shm_exit_phase(ctx):
     Manager.atexit is compared with the model's `atexit` (theorems c05_atexit_*)."""
     from ekw import sim_shm
     sim_shm.ATEXIT_LINE = True
+    n0 = len(ctx.disagreements)
     try:
         sim_shm.run_batch(ctx, sim_shm.C05_KINDS, "c09", ctx.budget(150, 2500), ctx.budget(60, 100), ctx.budget(4, 6), "C05shm_*.json")
+        _recheck_blocked_ops(ctx, n0)
     finally:
         sim_shm.ATEXIT_LINE = False
+
+
+BLOCKED_RECHECK_MAX = 3
+
+
+def _recheck_blocked_ops(ctx, n0):
+    """sim_shm reports an operation of the real store that has not returned within its 6 s watchdog as `blocked-<op>` (and the
+    history then differs from the model). The histories are driven single-threaded, so a store that really blocks does so again
+    on the same history; on a machine with 30+ runnable processes per 16 cores a 6 s stall of the check process itself
+    also trips the watchdog. Every such disagreement is therefore REPLAYED once (same history, fresh store, same model
+    comparison): it is dropped only if the replay neither blocks nor differs from the model; counted, noted, and at most
+    BLOCKED_RECHECK_MAX per run are re-examined (more = kept as they are)."""
+    import re
+    from ekw import sim_shm
+    idx = [i for i in range(n0, len(ctx.disagreements)) if re.match(r"shm-op \d+ blocked-", str(ctx.disagreements[i].get("where", "")))]
+    ctx.count("shm-exit:blocked-op-disagreements", len(idx))
+    if not idx or len(idx) > BLOCKED_RECHECK_MAX:
+        return
+
+    class _Probe:
+        def __init__(self):
+            self.traces, self.disagreements = 0, []
+
+        def disagree(self, where, case, model, impl):
+            self.disagreements.append(where)
+    drop = []
+    for i in idx:
+        d = ctx.disagreements[i]
+        case = {k: d["case"].get(k) for k in ("cap", "via_server", "stale", "avail", "ops")}
+        try:
+            run, left = sim_shm.replay_history(case)
+            probe = _Probe()
+            if not getattr(run, "deadlocked", False):
+                sim_shm.compare_with_model(probe, [(case, run)])
+            again = getattr(run, "deadlocked", False) or bool(probe.disagreements)
+        except Exception as ex:
+            again = True
+            ctx.notes.append(f"re-check of a blocked shm operation failed: {_err(ex)}")
+        if again:
+            ctx.count("shm-exit:blocked-op-reproduced")
+        else:
+            ctx.count("shm-exit:blocked-op-not-reproduced")
+            ctx.notes.append(f"{d['where'][:60]}: the operation returned and the history agreed with the model on an immediate replay (watchdog tripped by machine load); dropped")
+            drop.append(i)
+    for i in reversed(drop):
+        del ctx.disagreements[i]
 
 
 # Host ids of the executors are free-form strings and key the Bridge's sender table ("<host>", "data.<host>"). Real clusters whose
 # host names are related (`{u}` = the run's unique token): one a proper SUFFIX of the other, a proper PREFIX, or of equal length; a
 # process dies on ONE host (mostly the one with the shorter name) -> its executor reports ExecutorFailure and is forgotten by the
 # Bridge; the OTHER executor is alive and must be shut down like in any other run (no process, no segment left).
-NAME_RELATIONS = {"suffix": ["{u}1", "g{u}1"], "suffix-rev": ["g{u}1", "{u}1"], "prefix": ["{u}1", "{u}1z"], "equal-length": ["{u}ab", "{u}ba"],
+NAME_RELATIONS = {"data-prefix": ["data.{u}", "{u}1"], "suffix": ["{u}1", "g{u}1"], "suffix-rev": ["g{u}1", "{u}1"], "prefix": ["{u}1", "{u}1z"], "equal-length": ["{u}ab", "{u}ba"],
                   "suffix-3": ["{u}1", "g{u}1", "xg{u}1"]}
 
 
 def name_cases(rng, n):
     """n fault runs on clusters with related host names: the death is placed on a chosen host by name"""
     out = []
-    rels = ["suffix", "suffix-rev", "suffix", "prefix", "equal-length", "suffix-3"]
+    rels = ["suffix", "suffix-rev", "suffix", "prefix", "equal-length", "suffix-3", "data-prefix"]
     for k in range(n):
-        rel = "suffix" if k == 0 else rng.choice(rels)
+        rel = "suffix" if k == 0 else "data-prefix" if k == 1 else rng.choice(rels)
         names = NAME_RELATIONS[rel]
+        # the death is placed mostly on the shorter-named host; with a "data."-named host on the OTHER one (the "data." host lives and must be told to stop)
         short = min(range(len(names)), key=lambda i: len(names[i]))
         where = short if (k == 0 or rng.random() < 0.8) else rng.randrange(len(names))
         x = rng.random()
@@ -2252,10 +2572,45 @@ def _cluster_all(ctx):
     cluster_phase(ctx, cases + [SHM_WITNESS], healthy=True)
     if bg is not None:
         threads, res = bg
+        t_join = time.time() + 600          # one run is bounded by run_case itself (4 x deadline + settle + tracker wait, x load scale <= 3)
         for th in threads:
-            th.join(120)
-        cluster_phase(ctx, [c for c in bgcases if json.dumps(c, sort_keys=True) in res], healthy=False, first=res)
+            th.join(max(1.0, t_join - time.time()))
+        mask = ctx.extra.setdefault("c05_unjudged", {"infra-no-verdict": [], "fault-not-reached": [], "startup-verdict-dropped": [], "background-not-finished": []})
+        for c in bgcases:
+            if json.dumps(c, sort_keys=True) not in res:
+                # never dropped silently: the run is made again in the foreground (cluster_phase runs whatever has no first observation)
+                ctx.count("cluster:background-run-not-finished")
+                mask["background-not-finished"].append({"case": c})
+        cluster_phase(ctx, bgcases, healthy=False, first=res)
+        # the two scenarios of the fixed hangs (SLOW_CASES) must have been EXERCISED in this run: fault injected, a verdict reached
+        runs = ctx.extra.get("cluster_runs", [])
+        for c in SLOW_CASES:
+            mine = [r for r in runs if all(r["case"].get(k) == v for k, v in c.items())]
+            if not any(r["ended"] in ("ok", "error", "hang") and r.get("fault_fired") for r in mine):
+                obs, viol = run_cluster_case(ctx, c)          # once more, alone
+                for s_, w_, rr in viol:
+                    ctx.violation(s_, {"cluster": c, **({"runs": rr} if rr else {})}, w_)
+                if not (obs["ended"] in ("ok", "error", "hang") and obs.get("fault_fired")):
+                    ctx.disagree("fixed-hang-scenario-not-exercised", {"cluster": c}, "the fault run completes with the fault injected (twice attempted)",
+                                 {"runs": [{k: r.get(k) for k in ("ended", "fault_fired", "verdicts")} for r in mine], "last": _obs_summary(obs)})
+    _unjudged_verdict(ctx)
     yield
+
+
+UNJUDGED_MAX = {"infra-no-verdict": (1, 4), "fault-not-reached": (2, 8), "startup-verdict-dropped": (1, 3), "background-not-finished": (1, 1)}
+
+
+def _unjudged_verdict(ctx):
+    """Real runs that ended without a verdict (could not be set up three times; fault never injected; start-up verdict not
+    reproduced and dropped; background run unfinished) are counted, listed in the evidence and BOUNDED: more than
+    UNJUDGED_MAX[kind] (quick, thorough) of one kind in a run = the tie no longer observes what it claims = broken correspondence."""
+    mask = ctx.extra.get("c05_unjudged") or {}
+    for kind, (q, t) in UNJUDGED_MAX.items():
+        n = len(mask.get(kind, []))
+        ctx.count("cluster:unjudged:" + kind, n)
+        if n > (q if ctx.quick else t):
+            ctx.disagree("real-runs-without-verdict", {"kind": kind, "n": n, "max": q if ctx.quick else t},
+                         "at most %d real fault runs of a check run end without a verdict of this kind" % (q if ctx.quick else t), mask[kind][:4])
 
 
 def correspond(ctx):
